@@ -66,3 +66,46 @@ func init() {
 		return TupleV{tf.EDiv(sod, 3600), tf.EDiv(tf.EMod(sod, 3600), 60), tf.EMod(sod, 60)}
 	}
 }
+
+func init() {
+	// MarshalBinary: version, seconds (8 bytes), nanoseconds (4), zone offset in minutes (2; -1 = UTC).
+	// The bytes are kept as a chunk list like every other hash input.
+	stubs["(time.Time).MarshalBinary"] = func(e *Exec, fr *Frame, fn *ssa.Function, a []Value) Value {
+		tf := e.tf
+		t := a[0].(TimeV)
+		var off *Term
+		if t.Loc == nil || e.locName(t.Loc) == "UTC" {
+			off = tf.Int(-1)
+		} else if t.Sec.Op == "int" {
+			_, o := time.Unix(t.Sec.I.Int64(), 0).In(t.Loc.Aux.(*time.Location)).Zone()
+			off = tf.Int(int64(o / 60))
+		} else {
+			off = tf.UF("zoneoffmin_"+sanitize(e.locName(t.Loc)), SInt, t.Sec)
+			// a named zone never encodes as -1 (that value is reserved for UTC); offsets are within +-14 h
+			e.assumeAxiom(tf.And(tf.Le(tf.Int(-840), off), tf.Le(off, tf.Int(840)), tf.Not(tf.Eq(off, tf.Int(-1)))))
+		}
+		cs := []chunk{{num: true, width: 1, t: tf.Int(1)}, {num: true, width: 8, t: tf.Add(t.Sec, tf.Int(62135596800))},
+			{num: true, width: 4, t: tf.Int(0)}, {num: true, width: 2, t: off}}
+		return TupleV{chunksV{cs: cs}, IfaceV{}}
+	}
+	stubs["(*bytes.Buffer).Write"] = func(e *Exec, fr *Frame, fn *ssa.Function, a []Value) Value {
+		p := a[0].(Ptr)
+		key := e.bufKey(p)
+		cur := e.bufGet(p)
+		switch b := a[1].(type) {
+		case chunksV:
+			e.pathAux[key] = append(append([]chunk{}, cur...), b.cs...)
+			n := e.tf.Int(0)
+			for _, c := range b.cs {
+				n = e.tf.Add(n, e.chunkLen(c))
+			}
+			return TupleV{n, IfaceV{}}
+		case BytesV:
+			st := b.S.Term(e.tf)
+			e.pathAux[key] = append(append([]chunk{}, cur...), chunk{t: st})
+			return TupleV{e.tf.StrLen(st), IfaceV{}}
+		}
+		e.unsupported("bytes.Buffer.Write of %T", a[1])
+		return nil
+	}
+}
